@@ -123,3 +123,116 @@ Example C06_old_revoke_refuted :
   snd (prevoke_old (prun 2 222000 10 pinit ops) 0) = true /\
   in_total 2 s 1 * 1000 + 100000000 + 222000 < out_total 2 s 1 * 1000.
 Proof. vm_compute. repeat split; intros; try reflexivity; discriminate. Qed.
+
+(** The payment check the theorems above rest on is the one in the source.  Gen/NodePaymentsGen.v is
+    the statement-by-statement translation (tools/gen_rustfn.py, regenerated on every run) of
+    NodeState::validate_payments - the whole body: the hash set built from the keys of the two
+    summaries, for every hash the per-channel amounts, the payment record, its CLTV bounds
+    (validate_payment_cltv), RoutedPayment::updated_incoming_outgoing, the invoice, the call of
+    validate_payment_balance (the translation of Gen/PaymentsGen.v), the issue-331 tolerance for an
+    uninvoiced hash that has a record, the list of unbalanced hashes and
+    policy-commitment-htlc-routing-balance, and the enforce_balance register - with the RoutedPayment
+    methods and SimpleValidator::validate_payment_cltv / ::enforce_balance.  Maps and sets are
+    association lists / duplicate-free lists (Base/Rust.v); payment hashes and channel ids are
+    identities; the hash set (a hashbrown HashSet) is visited in the order [ord hashes] for an
+    uninterpreted [ord] of which only [Permutation (ord l) l] is known.
+
+    [abs_node] reads the model's functions ([inv], [known], [led]) off the source-level maps; the
+    model's totals range over the channels 0 .. nch-1, so the per-channel maps must have one entry per
+    key and keys below nch ([wf_node]).  For every such state, channel, pair of summaries, order of
+    visiting, and both build profiles the source accepts exactly when every hash passes the model's
+    [hash_ok] (written [hash_ok_sum] for summaries given as look-ups; [hash_ok] is that by
+    definition), and refuses with policy-commitment-htlc-routing-balance otherwise.  Assumed, because
+    the model does not have it: the CLTV rule passes for the records involved ([cltv_pass];
+    policy-routing-cltv-delta is a rule of the source that Model/Payments.v does not describe),
+    enforce_balance is off, the three tags involved are not downgraded by the filter, and nothing
+    leaves u64 ([hash_fitsb], a boolean over the hashes). *)
+From Coq Require Import String.
+From Coq Require Permutation.
+From Coq Require Import List.
+From VLS Require Gen.CommitmentPolicyGen Gen.NodePaymentsGen Proofs.NodePaymentsGenProofs Proofs.RustFacts.
+Theorem C06_payment_check_is_source :
+  forall (nch : nat) (prof : profile) (swarn : String.string -> bool) (gp : CommitmentPolicyGen.SimplePolicy)
+         (ord : list N -> list N) (chs : N -> pchan) (ns : NodePaymentsGen.NodeState) (ch : N)
+         (im om : list (N * N)) (bd : NodePaymentsGen.BalanceDelta) (vid : N),
+    (forall l, Permutation.Permutation (ord l) l) ->
+    NodePaymentsGenProofs.wf_node nch ns ->
+    swarn "policy-routing-balanced"%string = false ->
+    swarn "policy-htlc-fee-range"%string = false ->
+    swarn "policy-commitment-htlc-routing-balance"%string = false ->
+    CommitmentPolicyGen.SimplePolicy_enforce_balance gp = false ->
+    let s := NodePaymentsGenProofs.abs_node chs ns in
+    let mf := CommitmentPolicyGen.SimplePolicy_max_routing_fee_msat gp in
+    let mp := CommitmentPolicyGen.SimplePolicy_max_feerate_percentage gp in
+    let hashes := Rust.set_extend (Rust.set_extend [] (Rust.map_keys im)) (Rust.map_keys om) in
+    (forall h, In h hashes ->
+               NodePaymentsGenProofs.cltv_pass prof swarn gp (Rust.map_get (NodePaymentsGen.NodeState_payments ns) h)) ->
+    forallb (NodePaymentsGenProofs.hash_fitsb nch mf s ch (hget im) (hget om)) hashes = true ->
+    NodePaymentsGen.gen_NodeState_validate_payments prof swarn gp ord ns ch im om bd vid =
+    if forallb (NodePaymentsGenProofs.hash_ok_sum nch mf mp s ch (hget im) (hget om)) hashes
+    then Val (Rust.OkR tt)
+    else Val (Rust.ErrR "policy-commitment-htlc-routing-balance"%string).
+Proof. exact NodePaymentsGenProofs.gen_validate_payments_is_model. Qed.
+Print Assumptions C06_payment_check_is_source.
+
+(** ... and when the two summaries hold what the model computes from the channel's commitments (the
+    values [in_val] / [out_val], the hashes [sum_keys]) the source's answer is the model's
+    [validate_payments]. *)
+Theorem C06_payment_check_is_validate_payments :
+  forall (nch : nat) (prof : profile) (swarn : String.string -> bool) (gp : CommitmentPolicyGen.SimplePolicy)
+         (ord : list N -> list N) (chs : N -> pchan) (ns : NodePaymentsGen.NodeState) (ch : N)
+         (im om : list (N * N)) (bd : NodePaymentsGen.BalanceDelta) (vid : N) (nh nc : option content),
+    (forall l, Permutation.Permutation (ord l) l) ->
+    NodePaymentsGenProofs.wf_node nch ns ->
+    swarn "policy-routing-balanced"%string = false ->
+    swarn "policy-htlc-fee-range"%string = false ->
+    swarn "policy-commitment-htlc-routing-balance"%string = false ->
+    CommitmentPolicyGen.SimplePolicy_enforce_balance gp = false ->
+    let s := NodePaymentsGenProofs.abs_node chs ns in
+    let mf := CommitmentPolicyGen.SimplePolicy_max_routing_fee_msat gp in
+    let mp := CommitmentPolicyGen.SimplePolicy_max_feerate_percentage gp in
+    let hashes := Rust.set_extend (Rust.set_extend [] (Rust.map_keys im)) (Rust.map_keys om) in
+    (forall h, In h hashes ->
+               NodePaymentsGenProofs.cltv_pass prof swarn gp (Rust.map_get (NodePaymentsGen.NodeState_payments ns) h)) ->
+    forallb (NodePaymentsGenProofs.hash_fitsb nch mf s ch (hget im) (hget om)) hashes = true ->
+    (forall h, hget im h = in_val (chs ch) nh nc h) ->
+    (forall h, hget om h = out_val (chs ch) nh nc h) ->
+    (forall h, In h hashes <-> In h (sum_keys (chs ch) nh nc)) ->
+    NodePaymentsGen.gen_NodeState_validate_payments prof swarn gp ord ns ch im om bd vid =
+    if validate_payments nch mf mp s ch nh nc
+    then Val (Rust.OkR tt)
+    else Val (Rust.ErrR "policy-commitment-htlc-routing-balance"%string).
+Proof. exact NodePaymentsGenProofs.gen_validate_payments_is_validate. Qed.
+Print Assumptions C06_payment_check_is_validate_payments.
+
+(** The booking of one channel's amounts into a payment record is the source's: RoutedPayment::apply
+    (translated, never panics) replaces the record's entry for the channel in the incoming and in the
+    outgoing map - the ledger update [upd (led h) ch (i, o)] of the model's [apply_one] - keeps the
+    preimage, keeps the maps well formed, and otherwise only moves the two CLTV bounds.
+    NodeState::apply_payments around it (the entry API, the issued-invoice marking, iterator chains
+    over the HTLC lists) is outside the translator's fragment and stays tied by the correspondence
+    check. *)
+Theorem C06_payment_booking_is_source :
+  forall (prof : profile) (p : NodePaymentsGen.RoutedPayment) (ch i o : N) (ic oc : option N),
+  exists p',
+    NodePaymentsGen.gen_RoutedPayment_apply prof p ch i o ic oc = Val p' /\
+    (forall c, (NodePaymentsGenProofs.get0 (NodePaymentsGen.RoutedPayment_incoming p') c,
+                NodePaymentsGenProofs.get0 (NodePaymentsGen.RoutedPayment_outgoing p') c) =
+               upd (fun c => (NodePaymentsGenProofs.get0 (NodePaymentsGen.RoutedPayment_incoming p) c,
+                              NodePaymentsGenProofs.get0 (NodePaymentsGen.RoutedPayment_outgoing p) c)) ch (i, o) c) /\
+    NodePaymentsGen.RoutedPayment_preimage p' = NodePaymentsGen.RoutedPayment_preimage p /\
+    (forall nch, ch < N.of_nat nch ->
+       NodePaymentsGenProofs.wf_map nch (NodePaymentsGen.RoutedPayment_incoming p) ->
+       NodePaymentsGenProofs.wf_map nch (NodePaymentsGen.RoutedPayment_outgoing p) ->
+       NodePaymentsGenProofs.wf_map nch (NodePaymentsGen.RoutedPayment_incoming p') /\
+       NodePaymentsGenProofs.wf_map nch (NodePaymentsGen.RoutedPayment_outgoing p')).
+Proof. exact NodePaymentsGenProofs.gen_apply_is_model. Qed.
+Print Assumptions C06_payment_booking_is_source.
+
+(** [iter().sum::<u64>()] over the values of a map does not depend on the order in which the map hands
+    them out: the same value, the same wrap in a release build, the same overflow panic in a debug
+    build (the translation sums in the order of the association list). *)
+Theorem C06_value_sums_do_not_depend_on_order :
+  forall (prof : profile) (l l' : list N), Permutation.Permutation l l' -> Rust.sum_p prof l = Rust.sum_p prof l'.
+Proof. exact RustFacts.sum_p_perm. Qed.
+Print Assumptions C06_value_sums_do_not_depend_on_order.
